@@ -72,7 +72,7 @@ META["C05"] = {
     "category": "proof",
     "design_ref": "DESIGN.md section 5 / C05 and section 9.5",
     "technique": "Lean 4: the full order monitor (BatchDeliver only after a successful SetOutbox AND with no failed persistence / id / callback step before it) proved for Send and outbox POST against every application: a fail-fast judgement Ff (a value is returned only if no such step failed; nothing stored or delivered) discharged for every function of the pre-store phase by a rule-applying tactic, a delivery-phase judgement Fd for prepare/resolveActors/deliver, the monitor's trace-level meaning, and the outbox history theorem by induction; trace replay of the real code + the same monitor on real traces + set-level oracles for wrap / fresh ids / Create normalisation / store / outbox page / Location",
-    "text": "Proved for all inputs, configurations and application answers (so: every single fault and every combination): on every run of the transcribed Send and PostOutbox, every BatchDeliver event is preceded by a SetOutbox that succeeded, and every Database / id / callback step made before the outbox was updated - and the update itself - succeeded (send_failfast_trace, postOutbox_failfast_trace); any number of accepted posts leave the outbox page listing their ids newest first in front of the old items (given a Database that returns what it stored). The wrapping clause is a theorem too (wrapInCreate_spec: type Create, actor = the outbox's owner, object = the value, published and the ids of each of the five addressing properties copied, absent where the value has none). The remaining value-level clauses (fresh ids, attribution/recipient unions of a Create, objects stored, Location) are decided per run by an independent set-level monitor over the real code's traces and by call-for-call agreement with the model; they are not theorems.",
+    "text": "Proved for all inputs, configurations and application answers (so: every single fault and every combination): on every run of the transcribed Send and PostOutbox, every BatchDeliver event is preceded by a SetOutbox that succeeded, and every Database / id / callback step made before the outbox was updated - and the update itself - succeeded (send_failfast_trace, postOutbox_failfast_trace); any number of accepted posts leave the outbox page listing their ids newest first in front of the old items (given a Database that returns what it stored). The wrapping clause is a theorem too (wrapInCreate_spec: type Create, actor = the outbox's owner, object = the value, published and the ids of each of the five addressing properties copied, absent where the value has none), and so is the fresh-id clause (addNewIDs_spec: the activity carries the id NewID generated for it, and each embedded object of a Create the one generated for it). The remaining value-level clauses (attribution/recipient unions of a Create, objects stored, Location) are decided per run by an independent set-level monitor over the real code's traces and by call-for-call agreement with the model; they are not theorems.",
     "note": "Trusted: Lean kernel, transcription (replay-validated, fault-free and single-fault), fakes. A failing Unlock is ignored by the library and hence by the monitor. Value-level clauses: per-run oracle only.",
 }
 
